@@ -196,19 +196,19 @@ func minimise(prop string, p part, tier string, seedBase uint64, index int, tape
 }
 
 type partSummary struct {
-	Part          string         `json:"part"`
-	Engine        string         `json:"engine"`
-	RaceMonitor   bool           `json:"race_monitor"`
-	Evaluations   int            `json:"evaluations"`
-	Distinct      int            `json:"distinct_nontrivial"`
-	Stats         map[string]int `json:"counters"`
-	Steps         int            `json:"scheduler_steps"`
-	SimSeconds    float64        `json:"simulated_seconds"`
-	WallS         float64        `json:"wall_s"`
-	RunsPerHour   float64        `json:"runs_per_hour"`
-	Rechecked     int            `json:"determinism_rechecked"`
-	DistinctHash  int            `json:"distinct_event_hashes"`
-	ZeroCounters  []string       `json:"probes_at_zero,omitempty"`
+	Part         string         `json:"part"`
+	Engine       string         `json:"engine"`
+	RaceMonitor  bool           `json:"race_monitor"`
+	Evaluations  int            `json:"evaluations"`
+	Distinct     int            `json:"distinct_nontrivial"`
+	Stats        map[string]int `json:"counters"`
+	Steps        int            `json:"scheduler_steps"`
+	SimSeconds   float64        `json:"simulated_seconds"`
+	WallS        float64        `json:"wall_s"`
+	RunsPerHour  float64        `json:"runs_per_hour"`
+	Rechecked    int            `json:"determinism_rechecked"`
+	DistinctHash int            `json:"distinct_event_hashes"`
+	ZeroCounters []string       `json:"probes_at_zero,omitempty"`
 }
 
 func cmdCheck(prop, tier string) int {
